@@ -1523,7 +1523,8 @@ impl<'a> Body<'a> {
                 visit_mut::visit_expr_mut(self, e);
             }
         }
-        let cond_any = matches!(stmt, Stmt::Expr(Expr::If(ifx), _) if matches!(match_chain(&ifx.cond), Some((ref kd, ..)) if kd == "any"));
+        let any_here = self.opt_list("any_loops").iter().any(|x| self.func == *x || self.func.ends_with(&format!("::{x}")));
+        let cond_any = any_here && matches!(stmt, Stmt::Expr(Expr::If(ifx), _) if matches!(match_chain(&ifx.cond), Some((ref kd, ..)) if kd == "any"));
         match stmt {
             Stmt::Expr(Expr::If(_), _) if cond_any => {}
             Stmt::Expr(Expr::ForLoop(_), _) | Stmt::Expr(Expr::While(_), _) | Stmt::Expr(Expr::Loop(_), _) | Stmt::Expr(Expr::If(_), _) | Stmt::Expr(Expr::Block(_), _) | Stmt::Expr(Expr::Unsafe(_), _) | Stmt::Item(_) | Stmt::Macro(_) => return None,
@@ -1542,6 +1543,10 @@ impl<'a> Body<'a> {
             f.visit_stmt_mut(&mut st);
         }
         let (kind, src, m, body, dflt) = f.found?;
+        if kind == "any" && !self.opt_list("any_loops").iter().any(|x| self.func == *x || self.func.ends_with(&format!("::{x}"))) {
+            // R16c is opt-in per function (unit file: any_loops): elsewhere `any` stays the (unspecified) std call
+            return None;
+        }
         self.counter += 1;
         let (end, i) = (ident(&format!("__end{k}")), ident(&format!("__i{k}")));
         let pre: Vec<Stmt> = match kind.as_str() {
